@@ -26,15 +26,21 @@ def mods():
 wrap = graphwalk.wrap
 
 
-def serial(v):
+def serial(v, blank=None, blank_value=None):
+    """the payload of serial `blank` (if any) is a falsy value: an empty line / zero is an item like any other"""
+    if blank is not None and type(v) is type(blank_value) and v == blank_value:
+        return blank
     if not (isinstance(v, str) and v.startswith("item")):
         raise Unexpected("an item that was never put came out: %r" % (v,))
     return int(v[4:])
 
 
 class BufferAdapter:
-    def __init__(self, b):
-        self.b = b
+    def __init__(self, b, blank=None, blank_value=0):
+        self.b, self.blank, self.blank_value = b, blank, blank_value
+
+    def payload(self, i):
+        return self.blank_value if i == self.blank else "item%d" % i
 
     def new_world(self):
         return {"b": None}
@@ -51,12 +57,12 @@ class BufferAdapter:
         if n == "new":
             w["b"] = self.b.Buffer(); return []
         if n == "put":
-            r = b(op["i"], "item%d" % op["i"])
+            r = b(op["i"], self.payload(op["i"]))
             if r is not b:
                 raise Unexpected("put does not return the buffer")
             return []
         if n == "drain":
-            return [serial(x) for x in b]
+            return [serial(x, self.blank, self.blank_value) for x in b]
         if n == "flush":
             b.flush(); return []
         if n == "waiting_for":
@@ -66,8 +72,8 @@ class BufferAdapter:
 
 
 class PrintAdapter:
-    def __init__(self, b):
-        self.b = b
+    def __init__(self, b, blank=None):
+        self.b, self.blank = b, blank
 
     def new_world(self):
         return {"b": None, "out": None, "pos": 0}
@@ -84,7 +90,7 @@ class PrintAdapter:
         w["pos"] = len(text)
         if new and not new.endswith("|"):
             raise Unexpected("output does not end with the configured end string: %r" % new)
-        return [serial(x) for x in new.split("|")[:-1]]
+        return [serial(x, self.blank, "") for x in new.split("|")[:-1]]
 
     @wrap
     def apply(self, w, op):
@@ -93,7 +99,7 @@ class PrintAdapter:
             w["out"] = io.StringIO()
             w["b"] = self.b.PrintBuffer(w["out"], end="|"); return []
         if n == "print":
-            r = b.print(op["i"], "item%d" % op["i"])
+            r = b.print(op["i"], "" if op["i"] == self.blank else "item%d" % op["i"])
             out = self._new_output(w)
             if r is not True and r is not False:
                 raise Unexpected("print() returned %r" % (r,))
@@ -210,6 +216,11 @@ def run(ctx):
         g, _ = graphwalk.emit_graph(spec, model.cfg_text(consts, view="View", action_constraint="Emit"), ctx, name)
         st = graphwalk.walk(g, adapter, ctx, name, paths_per_state=4, history_ops=("flush", "clear", "drain"))
         ctx.note("walk %s" % st)
+        # the same graph with one serial carrying a falsy payload (an empty line, a zero): an item like any other
+        if name != "CircularBuffer":
+            for blank in range(N):
+                alt = PrintAdapter(b, blank) if name == "PrintBuffer" else BufferAdapter(b, blank, (0, "", 0.0, ())[blank % 4])
+                st = graphwalk.walk(g, alt, ctx, "%s(falsy payload at %d)" % (name, blank), paths_per_state=1)
     ctx.exhaustive = True
     # unbounded in depth: Apalache discharges an inductive invariant of the reorder buffer (and fails on the negative control)
     from vlib import apalache
@@ -226,9 +237,9 @@ def run(ctx):
     rnd = random.Random(ctx.seed * 7919 + 15)
     n = 20 if quick else 200
     big = 200
-    tr = split_failed([record(BufferAdapter(b), reorder_ops(rnd, big, False)) for _ in range(n)], ctx, "ReorderBuffer")
+    tr = split_failed([record(BufferAdapter(b, rnd.choice([None, rnd.randrange(big)]), rnd.choice([0, "", 0.0, ()])), reorder_ops(rnd, big, False)) for _ in range(n)], ctx, "ReorderBuffer")
     tracecheck.check_traces(RB, model.constants_block({"N": big, "MaxEpoch": 1, "Variant": '"ok"'}), tr, ctx, "ReorderBuffer", {"put"})
-    tr = split_failed([record(PrintAdapter(b), reorder_ops(rnd, big, True)) for _ in range(n)], ctx, "PrintBuffer")
+    tr = split_failed([record(PrintAdapter(b, rnd.choice([None, rnd.randrange(big)])), reorder_ops(rnd, big, True)) for _ in range(n)], ctx, "PrintBuffer")
     tracecheck.check_traces(PB, model.constants_block({"N": big, "MaxEpoch": 1, "Variant": '"ok"'}), tr, ctx, "PrintBuffer", {"print"})
     tr = split_failed([record(CircAdapter(c), circ_ops(rnd, 150)) for _ in range(n)], ctx, "CircularBuffer")
     tracecheck.check_traces(CB, model.constants_block({"Caps": "{1}", "MaxPuts": 100000, "Variant": '"ok"'}), tr, ctx,
